@@ -265,6 +265,13 @@ def main_check(args):
     for cname, floor in floors.items():
         if m["counters"].get(cname, 0) < floor:
             inconclusive.append("counter %s=%d below floor %d" % (cname, m["counters"].get(cname, 0), floor))
+    # ceilings: counters of cases that were set aside (the library refused to build / render something the check does not judge)
+    # are bounded relative to the number of cases - a change that makes many more cases fall into such a bucket must not pass silently
+    ceilings = getattr(mod, "CEILING_RATIOS", {})
+    for cname, ratio in ceilings.items():
+        got = m["counters"].get(cname, 0)
+        if m["evaluations"] and got > ratio * m["evaluations"]:
+            inconclusive.append("counter %s=%d is above its ceiling (%.3f of %d cases): cases set aside, not judged" % (cname, got, ratio, m["evaluations"]))
     if m["evaluations"] == 0:
         inconclusive.append("no cases evaluated")
     if hasattr(mod, "post"):
